@@ -233,6 +233,7 @@ def c_lints(ctx, P, scope, rule="C-LINT", tus=None):
     lib_kind2.alloc_err(ctx, P, scope, tus=ltus)
     lib_kind2.err_var(ctx, P, scope, tus=ltus)
     lib_kind2.memset_count(ctx, P, scope, tus=ltus)
+    lib_kind2.guard_index(ctx, P, scope, tus=ltus)
     lib_kind2.success_shortcuts(ctx, P, scope, tus=[k for k in ltus if k in ('tables', 'trees', 'genotypes', 'stats', 'convert')])
     lib_kind.validate_before_mutate(ctx, P, scope, tus=[k for k in ltus if k in ('tables', 'trees')])
     return n
